@@ -18,10 +18,15 @@ structure Core (ex : Option Nat) (s : State) : Prop where
   idx : ∀ i h, s.indexes.get i = some h → (s.obj h).lidx = i ∧ i ≠ 0
   reach : ∀ i h, s.indexes.get i = some h → ∀ a ∈ (s.obj h).addrs, h ∈ hostList s a
   ridx : ∀ r h, s.rindexes.get r = some h → Live s h ∧ (s.obj h).ridx = r
-  rel : ∀ i h, s.relays.get i = some h → Live s h ∧ i ∈ (s.obj h).relays ∧ i ≠ 0
+  rel : ∀ i h, s.relays.get i = some h → Live s h ∧ ((s.rstate h).byIdx.get i).isSome = true ∧ i ≠ 0
+  relOwn : ∀ h i, Live s h → ((s.rstate h).byIdx.get i).isSome = true → s.relays.get i = some h
+  rok : ∀ h, ROk (s.rstate h)
+  rsPend : ∀ h i, ((s.rstate h).byIdx.get i).isSome = true →
+    h < s.next ∧ (∀ j, s.pidx.get j ≠ some h) ∧ (∀ a, s.vpnIps.get a ≠ some h) ∧ some h ≠ ex
   pidx : ∀ i h, s.pidx.get i = some h → (s.obj h).lidx = i ∧ i ≠ 0 ∧ s.indexes.get i = none ∧ (s.obj h).ready = true
   vpn : ∀ a h, s.vpnIps.get a = some h → (s.obj h).addrs = [a] ∧ ¬ Live s h ∧ some h ≠ ex
   fresh : ∀ h, s.next ≤ h → s.objs.get h = none
+  vpnReady : ∀ a h, s.vpnIps.get a = some h → (s.obj h).ready = true → s.pidx.get (s.obj h).lidx = some h
 
 def Cap (s : State) : Prop := ∀ a, (hostList s a).length ≤ maxHostInfos
 
@@ -67,7 +72,15 @@ theorem deleteHost_core {ex : Option Nat} {s : State} (c : Core ex s) (h : Nat) 
     split at hl
     · cases hl
     · exact hl
-  refine ⟨⟨d.rep, ?_, ?_, ?_, ?_, ?_, ?_, ?_, ?_, ?_⟩, lists, d⟩
+  have keys : ∀ x i, ((t.rstate x).byIdx.get i).isSome = ((s.rstate x).byIdx.get i).isSome :=
+    fun x i => ((d.rs x (c.rok x)).2.2.1 i)
+  have deadh : ¬ Live t h := by
+    intro hl
+    simp only [Live, obj, d.indexes] at hl
+    split at hl
+    · cases hl
+    · rename_i hn; exact hn (by simpa using hl)
+  refine ⟨⟨d.rep, ?_, ?_, ?_, ?_, ?_, ?_, ?_, ?_, ?_, ?_, ?_, ?_, ?_⟩, lists, d⟩
   · intro a x hx
     rw [lists a, List.mem_filter] at hx
     have hxh : x ≠ h := by simpa using hx.2
@@ -103,15 +116,26 @@ theorem deleteHost_core {ex : Option Nat} {s : State} (c : Core ex s) (h : Nat) 
         exact hn ⟨h2.symm, hx⟩
       exact ⟨keep x hxh h1, h2⟩
   · intro i x hx
-    rw [d.relays] at hx; rw [obj]
+    rw [d.relays] at hx
     split at hx
     · cases hx
     · rename_i hn
       obtain ⟨h1, h2, h3⟩ := c.rel i x hx
       have hxh : x ≠ h := by
         rintro rfl
-        exact hn ⟨h2, hx⟩
-      exact ⟨keep x hxh h1, h2, h3⟩
+        exact hn ⟨by rw [keys]; exact h2, hx⟩
+      exact ⟨keep x hxh h1, by rw [keys]; exact h2, h3⟩
+  · intro x i hl hk
+    have hxh : x ≠ h := by rintro rfl; exact deadh hl
+    rw [keys] at hk
+    have := c.relOwn x i (back x hl) hk
+    rw [d.relays, if_neg]; exact this
+    rintro ⟨_, h2⟩; rw [this] at h2; exact hxh (Option.some.inj h2)
+  · intro x; exact (d.rs x (c.rok x)).1
+  · intro x i hk
+    rw [keys] at hk
+    obtain ⟨p1, p2, p3, p4⟩ := c.rsPend x i hk
+    rw [d.next, d.pidx, d.vpnIps]; exact ⟨p1, p2, p3, p4⟩
   · intro i x hx
     rw [d.pidx] at hx; rw [obj]
     obtain ⟨h1, h2, h3, h4⟩ := c.pidx i x hx
@@ -123,6 +147,8 @@ theorem deleteHost_core {ex : Option Nat} {s : State} (c : Core ex s) (h : Nat) 
     exact ⟨h1, fun hl => h2 (back x hl), h3⟩
   · intro x hx
     rw [d.next] at hx; rw [d.objs]; exact c.fresh x hx
+  · intro a x hx hr
+    rw [d.vpnIps] at hx; rw [obj] at hr ⊢; rw [d.pidx]; exact c.vpnReady a x hx hr
 
 theorem deleteHost_inv {s : State} (i : Inv s) (h : Nat) : Inv (deleteHost s h).1 := by
   obtain ⟨c, l, _⟩ := deleteHost_core i.core h (by simp)
